@@ -65,7 +65,7 @@ class Contract:
                  modifies=(), loops=None, locals=None, ghost=None, inline=False, pure=None,
                  props=(), trusted=None, maintains_inv=True, assumes_inv=True, generator=None,
                  interference=None, ghost_params=None, noreturn=False, havoc_calls=None,
-                 commit=None, canary=True, closure_env=None, prove_asserts=False):
+                 commit=None, canary=True, closure_env=None, prove_asserts=False, ghost_results=None):
         self.key = key
         self.params = params or {}
         self.returns = returns
@@ -101,6 +101,7 @@ class Contract:
         self.commit = commit
         self.canary = canary
         self.closure_env = closure_env
+        self.ghost_results = ghost_results or {}
         self.prove_asserts = prove_asserts
 
 
@@ -139,8 +140,17 @@ class Registry:
     # -- declarations ------------------------------------------------------------------
     def usort(self, name, **kw):
         if name not in self.kinds:
-            self.kinds[name] = KU(name, **kw)
+            k = KU(name, **kw)
+            self.kinds[name] = k
+            for py, cname in k.consts.items():
+                self.globals_[cname] = k.const(cname)
         return self.kinds[name]
+
+    def induction(self, name, params, hyps, concl, base, step, props=()):
+        '''A statement derived by the induction principle (meta rule, written once in DESIGN.md)
+        from two proved lemmas: `base` and `step`.'''
+        self.axioms[name] = Axiom(name, params, concl, kind='induction', hyps=hyps, props=props)
+        self.axioms[name].base, self.axioms[name].step = base, step
 
     def specfun(self, name, argkinds, retkind):
         import z3
